@@ -318,19 +318,27 @@ class Simulator(Computer, _mixins.CodeMixin):
                 new_branches.append(branch)
                 continue
 
-            if not is_instruction_resolved:
-                instruction._resolve_params(outcomes=branch.outcome)
+            try:
+                if not is_instruction_resolved:
+                    instruction._resolve_params(outcomes=branch.outcome)
 
-            if self.config.validate:
-                instruction._validate(self._connector)
+                if self.config.validate:
+                    instruction._validate(self._connector)
 
-            current_shots = int(branch.frequency * shots) if shots is not None else None
+                current_shots = (
+                    int(branch.frequency * shots) if shots is not None else None
+                )
 
-            subbranches = simulation_step(
-                branch.state,
-                instruction,
-                shots=current_shots,
-            )
+                subbranches = simulation_step(
+                    branch.state,
+                    instruction,
+                    shots=current_shots,
+                )
+            finally:
+                # NOTE: The parameters of the instruction are restored even when an
+                # exception is raised, so that the instruction of the user is unchanged.
+                if not is_instruction_resolved:
+                    instruction._unresolve_params()
 
             for subbranch in subbranches:
                 # NOTE: This updates the branches with the previous outcome, and the
@@ -341,9 +349,6 @@ class Simulator(Computer, _mixins.CodeMixin):
                 subbranch.frequency *= branch.frequency
 
             new_branches.extend(subbranches)
-
-            if not is_instruction_resolved:
-                instruction._unresolve_params()
 
         return new_branches
 
@@ -365,16 +370,23 @@ class Simulator(Computer, _mixins.CodeMixin):
                     f"{inactive_modes}."
                 )
 
-            instruction.modes = Simulator._remap_modes(active_modes, instruction.modes)
-
-            branches = self._apply_instruction_to_branches(branches, instruction, shots)
-
-            if isinstance(instruction, Measurement):
-                active_modes = Simulator._delete_modes_from_active(
+            try:
+                instruction.modes = Simulator._remap_modes(
                     active_modes, instruction.modes
                 )
 
-            instruction._modes = original_modes
+                branches = self._apply_instruction_to_branches(
+                    branches, instruction, shots
+                )
+
+                if isinstance(instruction, Measurement):
+                    active_modes = Simulator._delete_modes_from_active(
+                        active_modes, instruction.modes
+                    )
+            finally:
+                # NOTE: The modes of the instruction are restored even when an exception
+                # is raised, so that the instruction of the user is left unchanged.
+                instruction._modes = original_modes
 
         return Result(config=self.config, branches=branches, shots=shots)
 
